@@ -261,6 +261,8 @@ TRemount ==
      viol' = Report(UNION {
         LET lv == e.vols[v] IN
         IF lv.mount # "ok" THEN {<<"C02", "Remount", lv.mount>>}
+        \* (a medium that is not well-formed on purpose - results-only histories - need not read the same for both readers)
+        ELSE IF lenient THEN {}
         ELSE IF ~LibReadable(lv) THEN {<<"C02", "Remount", "unreadable">>}
         ELSE IF LibTree(lv) # AbsTree(disk[v]) THEN {<<"C02", "Remount", "library view differs from the independent reader">>}
         ELSE {} : v \in DOMAIN disk})
